@@ -265,10 +265,10 @@ def node_replace(old_kind, action, nid, extra=0, twice=0):
 
 
 # ---- outgoing frames --------------------------------------------------------------------------------
-def outgoing(n, periodic):
+def outgoing(n, periodic, modifiable=True):
     netmod = sx.mod("canopen.network")
     from symx.models import can_model
-    bus = can_model.BusABC()
+    bus = can_model.BusABC(modifiable=modifiable)
     net = netmod.Network(bus)
     cid = sx.fresh_int("id", 0, ID_MAX)
     data = sx.fresh_bytes("data", n)
@@ -288,6 +288,20 @@ def outgoing(n, periodic):
     sx.prove(bool(msg.is_remote_frame) == remote, "remote flag", tag + "/remote")
     if not remote:
         sx.prove(sx.eq_bytes(sx.mkbytes(sx.items(msg.data)), data), "data", tag + "/data")
+    if periodic and not remote:
+        # the frame repeated after an update() still has the given id, format and flags, and the new data
+        new = sx.fresh_bytes("new", n)
+        task.update(new)
+        live = bus.live_tasks()
+        sx.prove(len(live) == 1, "exactly one cyclic task after update()", tag + "/update-tasks")
+        if len(live) == 1:
+            aid, ext, rtr, d = live[0].snapshot
+            sx.observe("updated", [aid, ext, rtr, d])
+            sx.prove(aid == cid, "arbitration id after update()", tag + "/update-id")
+            sx.prove(ext == (cid > 0x7FF), "frame format after update()", tag + "/update-extended")
+            sx.prove(bool(rtr) is False, "remote flag after update()", tag + "/update-remote")
+            sx.prove(sx.eq_bytes(sx.mkbytes(sx.items(d)), new), "data after update()", tag + "/update-data")
+        sx.reach("outgoing-update")
     sx.reach("outgoing")
 
 
@@ -356,6 +370,8 @@ def jobs(tier):
     for n in range(0, 9):
         for periodic in (False, True):
             out.append(dict(func="outgoing", params=dict(n=n, periodic=periodic)))
+            if periodic:
+                out.append(dict(func="outgoing", params=dict(n=n, periodic=periodic, modifiable=False)))
     out.append(dict(func="listener", params={}))
     for k in (1, 2, 3):
         out.append(dict(func="scanner", params=dict(k=k), weight=10 ** k))
@@ -381,7 +397,7 @@ META = dict(
     assumptions=[],
     stubs=["can (recording model)", "dict displays -> SymDict", "threading.Lock", "queue", "logging"],
     required_reach=["step", "op-subscribe", "op-unsubscribe", "op-unsubscribe-missing", "op-notify", "history",
-                    "node-delete", "node-remote", "node-local", "node-extra-channel", "node-same", "outgoing", "listener", "scanner"],
+                    "node-delete", "node-remote", "node-local", "node-extra-channel", "node-same", "outgoing", "outgoing-update", "listener", "scanner"],
     limits=dict(quick=dict(max_decisions=20000), thorough=dict(max_decisions=20000, job_timeout_s=3000)),
     validate_every=dict(quick=11, thorough=101),
     max_validate=dict(quick=60, thorough=60),
